@@ -26,3 +26,37 @@ def reuse(tag, a, enabled=True):
         return buf
     buf[...] = a
     return buf
+
+
+# ----------------------------------------------------------------------------- other kinds of array a caller may hold
+
+class _Sub(__import__("numpy").ndarray):
+    """A trivial ndarray subclass (what many libraries hand out: unit-carrying arrays, recarrays, ...)."""
+
+
+def as_kind(a, kind):
+    """The same numbers in another kind of array object: an ndarray subclass, a masked array without a mask, an np.matrix, a
+    memory map (read-write or read-only) whose file is already unlinked.  The values and the 2-D shape are unchanged."""
+    import numpy as np
+    if kind in (None, "ndarray"):
+        return a
+    if kind == "subclass":
+        return a.view(_Sub)
+    if kind == "masked":
+        return np.ma.MaskedArray(a)
+    if kind == "matrix":
+        return np.matrix(a) if a.ndim == 2 else a
+    if kind in ("memmap_rw", "memmap_ro"):
+        import os
+        import tempfile
+        d = os.path.join(os.environ.get("VERIF_HOME", "."), ".work")
+        os.makedirs(d, exist_ok=True)
+        fd, path = tempfile.mkstemp(prefix="mm-", suffix=".dat", dir=d)
+        try:
+            with os.fdopen(fd, "wb") as f:
+                f.write(np.ascontiguousarray(a).tobytes())
+            mm = np.memmap(path, dtype=a.dtype, mode="r+" if kind == "memmap_rw" else "r", shape=a.shape)
+        finally:
+            os.unlink(path)          # the mapping stays valid; nothing is left on disk
+        return mm
+    raise ValueError(kind)
